@@ -32,65 +32,102 @@ def exState : B :=
 
 /-- Every output of `onPublish` (any state, any message object - no
 hypothesis at all) is a PUBLISH with RETAIN = 0 written to a connection, or an
-invocation of an in-process callback. -/
+invocation of an in-process callback (`Server.Subscribe`) with RETAIN = 0. -/
 theorem C08_forward_retain_zero (b : B) (m : Msg) :
     ∀ o ∈ (onPublish b m).2.2.1,
-      (∃ d w, o = .send d (.publish w) ∧ d < cbBase ∧ w.retain = false) ∨ (∃ cb w, o = .call cb w ∧ cbBase ≤ cb) := by
+      (∃ d w, o = .send d (.publish w) ∧ d < cbBase ∧ w.retain = false) ∨
+      (∃ cb w, o = .call cb w ∧ cbBase ≤ cb ∧ w.retain = false) := by
   intro o ho
-  have := onPublish_out b m o ho
-  unfold fwdOk at this
+  have := onPublish_out0 b m o ho
+  unfold fwdOk0 at this
   split at this
   · rename_i d w
     simp only [Bool.and_eq_true, Bool.not_eq_true', decide_eq_true_eq] at this
     exact Or.inl ⟨d, w, rfl, this.2, this.1⟩
   · rename_i cb w
-    exact Or.inr ⟨cb, w, rfl, by simpa using this⟩
+    simp only [Bool.and_eq_true, Bool.not_eq_true', decide_eq_true_eq] at this
+    exact Or.inr ⟨cb, w, rfl, this.2, this.1⟩
   · cases this
 
-/-- the same for the loop itself -/
+/-- the same in the words of the property - "messages forwarded to already
+existing subscriptions carry retain flag 0": whatever `onPublish` writes to a
+connection or hands to an in-process callback has RETAIN = 0 -/
+theorem C08_forward_retain_zero_all (b : B) (m : Msg) :
+    ∀ o ∈ (onPublish b m).2.2.1,
+      match o with
+      | .send _ (.publish w) => w.retain = false
+      | .call _ w => w.retain = false
+      | _ => True := by
+  intro o ho
+  rcases C08_forward_retain_zero b m o ho with ⟨d, w, rfl, _, h⟩ | ⟨cb, w, rfl, _, h⟩
+  · exact h
+  · exact h
+
+/-- the same for the live fan-out itself (`fanoutLive`: flag cleared before the
+loop), with the message object's own flag intact afterwards; and for the bare
+loop as far as connections go (the closure clears the flag for its own write) -/
 theorem C08_fanout_retain_zero (b : B) (m : Msg) (subs : List (Nat × Nat)) :
-    ∀ d w, Out.send d (.publish w) ∈ (fanout b m subs).2.2 → w.retain = false := by
-  intro d w ho
-  have := fanout_out subs b m _ ho
-  simp only [fwdOk, Bool.and_eq_true, Bool.not_eq_true'] at this
-  exact this.1
+    (∀ d w, Out.send d (.publish w) ∈ (fanoutLive b m subs).2.2 → w.retain = false) ∧
+    (∀ cb w, Out.call cb w ∈ (fanoutLive b m subs).2.2 → w.retain = false) ∧
+    (fanoutLive b m subs).2.1.p.retain = m.p.retain ∧
+    (∀ d w, Out.send d (.publish w) ∈ (fanout b m subs).2.2 → w.retain = false) := by
+  obtain ⟨h1, h2⟩ := fanoutLive_out0 subs b m
+  refine ⟨?_, ?_, h2, ?_⟩
+  · intro d w ho
+    have := h1 _ ho
+    simp only [fwdOk0, Bool.and_eq_true, Bool.not_eq_true'] at this
+    exact this.1
+  · intro cb w ho
+    have := h1 _ ho
+    simp only [fwdOk0, Bool.and_eq_true, Bool.not_eq_true'] at this
+    exact this.1
+  · intro d w ho
+    have := fanout_out subs b m _ ho
+    simp only [fwdOk, Bool.and_eq_true, Bool.not_eq_true'] at this
+    exact this.1
 
 /-- On the whole step function: whatever the event - a PUBLISH of any QoS, a
 PUBREL releasing stored messages, the will at a connection end, the in-process
 `Publish`, ... - no PUBLISH with RETAIN = 1 is written to any connection,
-except by the retained delivery of a SUBSCRIBE packet. -/
-theorem C08_step_retain_zero (b : B) (e : Ev) (he : isSubscribeEv e = false) :
-    ∀ d w, Out.send d (.publish w) ∈ (step b e).2 → w.retain = false := by
-  intro d w ho
-  have := step_out b e he _ ho
-  simpa [noRetainSend] using this
+except by the retained delivery of a SUBSCRIBE packet; and no in-process
+callback is invoked with RETAIN = 1, except by the retained delivery of its own
+`Server.Subscribe`. -/
+theorem C08_step_retain_zero (b : B) (e : Ev) :
+    (isSubscribeEv e = false → ∀ d w, Out.send d (.publish w) ∈ (step b e).2 → w.retain = false) ∧
+    (isSrvSubEv e = false → ∀ cb w, Out.call cb w ∈ (step b e).2 → w.retain = false) := by
+  constructor
+  · intro he d w ho
+    have := step_out b e he _ ho
+    simpa [noRetainSend] using this
+  · intro he cb w ho
+    have := step_noCall b e he _ ho
+    simpa [noRetainCall] using this
 
-/-- the full statement: in-process callbacks included -/
-def C08_forward_retain_zero_full : Prop :=
-  ∀ (b : B) (m : Msg), ∀ o ∈ (onPublish b m).2.2.1,
-    match o with
-    | .send _ (.publish w) => w.retain = false
-    | .call _ w => w.retain = false
-    | _ => True
-
-/-- False of the code as it is (finding E10): an in-process callback is handed
-the publisher's message object as it is, RETAIN = 1 included. -/
-theorem C08_forward_retain_zero_callback_counterexample : ¬ C08_forward_retain_zero_full := by
-  intro h
-  have := h exState ⟨{ qos := 1, retain := true, topic := [97, 47, 98], pktid := 5, payload := [7] }, false⟩
-    (.call 1000 { qos := 1, retain := true, topic := [97, 47, 98], pktid := 5, payload := [7] }) (by decide)
-  exact absurd this (by decide)
-
-/-- non-vacuity: the retained QoS 1 PUBLISH "a/b" from connection 2 is
-acknowledged and forwarded with RETAIN = 0 to connections 1 and 2, RETAIN = 1
-to callback 1000 -/
-example :
+/-- Finding E10, repaired - an in-process subscriber sees what a connection
+sees: RETAIN = 0 on a live forward (here: of a retained QoS 1 PUBLISH on "a/b",
+and of the same message published through `Server.Publish`), RETAIN = 1 on the
+retained delivery at subscription time. -/
+theorem C08_callback_retain :
+    (∀ (b : B) (m : Msg) (cb : Nat) (w : Pub), Out.call cb w ∈ (onPublish b m).2.2.1 → w.retain = false) ∧
+    (∀ (b : B), Inv b → ∀ (cb : Nat) (f : Bytes) (q : Nat) (w : Pub),
+      Out.call cb w ∈ (srvSub b cb f q).2 → w.retain = true) ∧
     (step exState (.packet 2 (.publish { qos := 1, retain := true, topic := [97, 47, 98], pktid := 5, payload := [7] }))).2 =
       [.send 2 (.puback 5),
-       .call 1000 { qos := 1, retain := true, topic := [97, 47, 98], pktid := 5, payload := [7] },
+       .call 1000 { qos := 1, retain := false, topic := [97, 47, 98], pktid := 5, payload := [7] },
        .send 1 (.publish { qos := 1, retain := false, topic := [97, 47, 98], pktid := 5, payload := [7] }),
-       .send 2 (.publish { qos := 1, retain := false, topic := [97, 47, 98], pktid := 5, payload := [7] })] := by
-  decide
+       .send 2 (.publish { qos := 1, retain := false, topic := [97, 47, 98], pktid := 5, payload := [7] })] ∧
+    (let b1 := (step exState (.srvPub { qos := 1, retain := true, topic := [97, 47, 98], payload := [7] })).1
+     (step exState (.srvPub { qos := 1, retain := true, topic := [97, 47, 98], payload := [7] })).2 =
+       [.call 1000 { qos := 1, retain := false, topic := [97, 47, 98], pktid := 1, payload := [7] },
+        .send 1 (.publish { qos := 1, retain := false, topic := [97, 47, 98], pktid := 1, payload := [7] }),
+        .send 2 (.publish { qos := 1, retain := false, topic := [97, 47, 98], pktid := 1, payload := [7] })] ∧
+     (step b1 (.srvSub 1001 [97, 47, 98] 1)).2 =
+       [.call 1001 { qos := 1, retain := true, topic := [97, 47, 98], pktid := 1, payload := [7] }]) := by
+  refine ⟨?_, ?_, by decide, by decide⟩
+  · intro b m cb w ho
+    exact C08_forward_retain_zero_all b m _ ho
+  · intro b hinv cb f q w ho
+    exact srvSub_retain b hinv cb f q w ho
 
 /-! ### (g) the retain step: one message per topic, last non-empty one wins, empty clears -/
 
